@@ -17,6 +17,14 @@
 // ("db", "coll", flush members) are then judged against the image of the source name under a matching entry (the
 // source name itself when none matches); "priv" accepts the source object name / database as well as their image;
 // all other groups stay plain equality with the source.
+//
+// Sibling drops (step fields "via", "sib", "rel"): the names of such a step come from an adversarial universe - database,
+// collection, partition names containing '_' (the writer's record keys are "<db>_<collection>[_<partition>]" with '_' as the
+// only separator), and for the object named by "sib" a SIBLING whose name followed by '_' starts the object's name
+// (rel "pre": orders / orders_eu) or the other way round (rel "ext"); no two keys of the step are equal.  via = "event": the
+// drop records of the step's dropped members / parent are not seeded at start-up but made by the writer itself (drop-partition
+// / drop-collection events, drop-database message handled before the op).  Then the drop(s) of the sibling(s) are handled by the
+// same writer, then the op.  The prelude is reported per drop (kind, result, number of requests).
 package main
 
 import (
@@ -95,6 +103,11 @@ type content struct {
 	ODB, OColl         string
 	TMembers           []string
 	Extra              [][2]string
+	// sibling drops (classes "sib" / "rel" / "via" of the step)
+	Sib, Rel, Via string
+	SibDB, SibColl string   // the sibling database / collection
+	SibMembers     []string // one sibling per list member
+	SibBefore      bool     // the sibling's drop is stamped before the op (else after every drop record of the step)
 }
 
 var nameGen = rapid.StringMatching(`[a-zA-Z][a-zA-Z0-9]{0,9}`)
@@ -316,6 +329,55 @@ func genContent(m map[string]interface{}) *rapid.Generator[*content] {
 			c.OpFirst = true
 		case "revoke":
 			c.OpFirst = false
+		}
+		c.Sib, c.Rel, c.Via = hx.S(m, "sib"), hx.S(m, "rel"), hx.S(m, "via")
+		if c.Sib != "" && c.Sib != "none" {
+			// adversarial name universe: every name may contain '_' (first segments stay distinct, so all names and all
+			// record keys of the step are distinct), and the object named by the class gets a sibling whose name is a
+			// proper prefix of its own at a '_' boundary (rel = "pre") or extends it by "_<more>" (rel = "ext")
+			seg := rapid.StringMatching(`[a-zA-Z0-9]{1,4}`)
+			tail := func(label string, min, max int) string {
+				res := ""
+				for i, n := 0, rapid.IntRange(min, max).Draw(t, label+"-n"); i < n; i++ {
+					res += "_" + seg.Draw(t, fmt.Sprintf("%s-%d", label, i))
+				}
+				return res
+			}
+			pair := func(label, name string) (obj, sibling string) {
+				short := name + tail(label+"-mid", 0, 1)
+				long := short + tail(label+"-ext", 1, 2)
+				if c.Rel == "pre" {
+					return long, short
+				}
+				return short, long
+			}
+			plain := func(label, name string) string { return name + tail(label, 0, 2) }
+			if c.Sib == "db" {
+				if c.Rel == "pre" {
+					c.DB, c.SibDB = pair("sibdb", names[0]) // a named database: "default" has no proper prefix sibling
+				} else {
+					c.SibDB = canonDB(c.DB) + tail("sibdb-ext", 1, 2)
+				}
+			} else if c.DB == names[0] {
+				c.DB = plain("db", c.DB)
+			}
+			if c.Sib == "coll" {
+				c.Coll, c.SibColl = pair("sibcoll", c.Coll)
+			} else {
+				c.Coll = plain("coll", c.Coll)
+			}
+			c.Part = plain("part", c.Part)
+			for i := range c.Members {
+				if c.Sib == "member" {
+					var sb string
+					c.Members[i], sb = pair(fmt.Sprintf("sibmem%d", i), c.Members[i])
+					c.SibMembers = append(c.SibMembers, sb)
+				} else {
+					c.Members[i] = plain(fmt.Sprintf("mem%d", i), c.Members[i])
+				}
+			}
+			c.Schema.Name = c.Coll
+			c.SibBefore = rapid.Bool().Draw(t, "sibbefore")
 		}
 		c.MapCls = hx.S(m, "map")
 		if c.MapCls == "cover" || c.MapCls == "other" {
@@ -886,6 +948,16 @@ func compare(s *source, call *wfake2.Call, cands stampCands) hx.Event {
 }
 
 func seedFor(p *hx.Plan, idx int, st map[string]interface{}) int {
+	if sb, via := hx.S(st, "sib"), hx.S(st, "via"); (sb == "" || sb == "none") && (via == "" || via == "seed") {
+		// the classes that existed before the sibling dimension keep the contents they always had
+		cp := map[string]interface{}{}
+		for k, v := range st {
+			if k != "sib" && k != "rel" && k != "via" {
+				cp[k] = v
+			}
+		}
+		st = cp
+	}
 	b, _ := json.Marshal(st)
 	h := fnv.New64a()
 	fmt.Fprintf(h, "%d|%d|", hx.Seed(), idx) // the step itself carries the salt
@@ -934,10 +1006,13 @@ func runStep(p *hx.Plan, idx int, st map[string]interface{}) hx.Event {
 		}
 	}
 	collDBIsParent := kind == "EvCreateCollection" || kind == "EvDropCollection"
+	byEvent := c.Via == "event" // the drop records are made by drops this writer handles itself (prelude below)
+	dropTs := hi + c.Delta
 	if shape == "one" {
 		ck, dk := util.GetCollectionInfoKeys(c.Coll, c.DB)
 		dbck, dbdk := util.GetDBInfoKeys(c.DB)
 		switch {
+		case obj == "dropped" && byEvent:
 		case collDBIsParent && obj == "dropped":
 			dropped[util.DroppedDatabaseKey][dbdk] = hi + c.Delta
 		case collDBIsParent:
@@ -957,6 +1032,9 @@ func runStep(p *hx.Plan, idx int, st map[string]interface{}) hx.Event {
 			} else {
 				mck, mdk = util.GetPartitionInfoKeys(c.Members[i], c.Coll, c.DB)
 				table = util.DroppedPartitionKey
+			}
+			if cls == "D" && byEvent {
+				continue
 			}
 			if cls == "D" {
 				dropped[table][mdk] = hi + c.Delta
@@ -979,6 +1057,91 @@ func runStep(p *hx.Plan, idx int, st map[string]interface{}) hx.Event {
 		// ReplicateEntity.UpdateMapping: the task's db / collection mappings reach the writer this way
 		w.(*writer.ChannelWriter).UpdateNameMappings(entries)
 	}
+
+	// ---- prelude: drops handled by this writer before the op
+	prelude := []hx.Event{}
+	nReq := func() int {
+		n := 0
+		for _, call := range h.Calls() {
+			if !strings.HasPrefix(call.Kind, "Describe") {
+				n++
+			}
+		}
+		return n
+	}
+	pre := func(what string, f func() error) {
+		before := nReq()
+		e := f()
+		prelude = append(prelude, hx.Event{"kind": what, "ok": e == nil, "n": nReq() - before})
+	}
+	nDrop := int64(0)
+	dropEvent := func(db, coll, part string, ts uint64) {
+		nDrop++
+		info := &pb.CollectionInfo{ID: c.CollID + 1000*nDrop, Schema: &schemapb.CollectionSchema{Name: coll}, CreateTime: 1,
+			State: pb.CollectionState_CollectionDropping}
+		evt := &api.ReplicateAPIEvent{EventType: api.ReplicateDropCollection, CollectionInfo: info,
+			ReplicateInfo:  &commonpb.ReplicateInfo{IsReplicate: true, MsgTimestamp: ts},
+			ReplicateParam: api.ReplicateParam{Database: db}, TaskID: c.Task, MsgID: api.GetDropCollectionMsgID(info.ID)}
+		what := "DropCollection"
+		if part != "" {
+			pi := &pb.PartitionInfo{PartitionID: c.PartID + 1000*nDrop, PartitionName: part, CollectionId: info.ID,
+				State: pb.PartitionState_PartitionDropping}
+			evt.EventType, evt.PartitionInfo, evt.MsgID = api.ReplicateDropPartition, pi, api.GetDropPartitionMsgID(info.ID, pi.PartitionID)
+			info.State = pb.CollectionState_CollectionCreated
+			what = "DropPartition"
+		}
+		pre(what, func() error { return w.HandleReplicateAPIEvent(ctx, evt) })
+	}
+	dropDatabase := func(db string, ts uint64) {
+		req := &milvuspb.DropDatabaseRequest{Base: base(commonpb.MsgType_DropDatabase, c, ts), DbName: db}
+		pos := &msgpb.MsgPosition{ChannelName: "rpc-request-channel", MsgID: c.StartID, Timestamp: ts}
+		msg := asTsMsg(req)
+		msg.SetPosition(pos)
+		pack := &msgstream.MsgPack{BeginTs: ts, EndTs: ts, Msgs: []msgstream.TsMsg{msg},
+			StartPositions: []*msgpb.MsgPosition{pos}, EndPositions: []*msgpb.MsgPosition{pos}}
+		pre("DropDatabase", func() error { _, e := w.HandleOpMessagePack(ctx, pack); return e })
+	}
+	if shape == "one" && byEvent {
+		// the dropped members first (their collection is still alive), then the dropped parent
+		for i, cls := range memberCls {
+			if cls != "D" {
+				continue
+			}
+			if kind == "Flush" {
+				dropEvent(c.DB, c.Members[i], "", dropTs)
+			} else {
+				dropEvent(c.DB, c.Coll, c.Members[i], dropTs)
+			}
+		}
+		if obj == "dropped" && collDBIsParent {
+			dropDatabase(c.DB, dropTs)
+		} else if obj == "dropped" {
+			dropEvent(c.DB, c.Coll, "", dropTs)
+		}
+	}
+	if shape == "one" && c.Sib != "" && c.Sib != "none" {
+		// the sibling's drop: stamped after every drop record of the step (always, for sibling partitions of a collection that is
+		// itself dropped: an earlier stamp would make the writer skip the sibling's drop), or well before the op
+		sibTs := dropTs + c.Delta2
+		if c.SibBefore && !(c.Sib == "member" && obj == "dropped") && lo > 2*c.Delta2+5000 {
+			sibTs = lo - c.Delta2 - 5000
+		}
+		switch c.Sib {
+		case "db":
+			dropDatabase(c.SibDB, sibTs)
+		case "coll":
+			dropEvent(c.DB, c.SibColl, "", sibTs)
+		case "member":
+			for _, sb := range c.SibMembers {
+				if kind == "Flush" {
+					dropEvent(c.DB, sb, "", sibTs)
+				} else {
+					dropEvent(c.DB, c.Coll, sb, sibTs)
+				}
+			}
+		}
+	}
+	h.Reset()
 
 	src := &source{kind: kind, members: c.Members, rid: rid, c: c, entries: entries}
 	var err error
@@ -1098,10 +1261,22 @@ func runStep(p *hx.Plan, idx int, st map[string]interface{}) hx.Event {
 			opCls = map[bool]string{true: "grant", false: "revoke"}[c.OpFirst]
 		}
 	}
+	sibCls, relCls, viaCls := hx.S(st, "sib"), hx.S(st, "rel"), hx.S(st, "via")
+	if sibCls == "" {
+		sibCls = "none"
+	}
+	if relCls == "" {
+		relCls = "na"
+	}
+	if viaCls == "" {
+		viaCls = "seed"
+	}
 	return hx.Event{
 		"m": hx.Event{"shape": shape, "kind": kind, "obj": obj, "members": members, "fail": fail,
-			"schema": hx.S(st, "schema"), "rid": rid, "map": mapCls, "optype": opCls},
+			"schema": hx.S(st, "schema"), "rid": rid, "map": mapCls, "optype": opCls, "sib": sibCls, "rel": relCls, "via": viaCls},
 		"calls": calls, "err": err != nil, "ret": ret, "probes": probes, "via": via, "mapping": mappingList(entries),
+		"prelude": prelude, "names": hx.Event{"db": c.DB, "coll": c.Coll, "members": append([]string{}, c.Members...),
+			"sibdb": c.SibDB, "sibcoll": c.SibColl, "sibmembers": append([]string{}, c.SibMembers...)},
 	}
 }
 
